@@ -3,7 +3,7 @@
      U <key> <class id> <body> <dep,dep,..>   universe entry
      T <cfg> <key> <item> <item> ...      script of (configuration, type): t:<str> | u:<key>:<base>:<pre>:<suf> | m:<q> | k (marker)
      N <cfg> <stem=path,..|-> <pps> <key,key,..>   construct a generator with a template listing; pps: '-' or colon-separated T | L<n> | L<n>@<count>
-     R <gid> <key,key,..>                 generate_all of generator gid in this order
+     R <gid> <args> <dry 0|1> <key,key,..>   generate_all of generator gid with per-call argument combination <args>, in this order
      C                                    clear caches
      X <resets 0|1> <lel_shared 0|1> <maxsize|-> <markers 0|1>   run the accumulated history in a new interpreter, print
                                           `E <cfg> <key> <clean 0|1> <text> <template path|->` per file, `S <hist_solid 0|1>`, `END`; forget U/T/history *)
@@ -49,7 +49,7 @@ let () =
         | ["U"; k; c; b; deps] -> u := !u @ [(parse_str k, { d_cls = n_of_int (int_of_string c); d_body = parse_str b; d_deps = parse_list deps })]
         | "T" :: c :: k :: items -> tab := !tab @ [((n_of_int (int_of_string c), parse_str k), List.map parse_item items)]
         | ["N"; c; ts; pps; ins] -> h := !h @ [ONew (n_of_int (int_of_string c), parse_ts ts, parse_pps pps, parse_list ins)]
-        | ["R"; g; order] -> h := !h @ [ORun (nat_of_int (int_of_string g), parse_list order)]
+        | ["R"; g; a; d; order] -> h := !h @ [ORun (nat_of_int (int_of_string g), n_of_int (int_of_string a), (d = "1"), parse_list order)]
         | ["C"] -> h := !h @ [OClear]
         | ["X"; r; l; m; mk] ->
           let ms = if m = "-" then None else Some (nat_of_int (int_of_string m)) in
